@@ -89,6 +89,9 @@ def add_hostile(rng, pr, sc_root):
         lambda: mk("_.task/q.task.8"),
         # unrecorded experiment outputs whose names use '-' / '_' / digits / capitals
         lambda: (mk("a/my-exp.task.44"), mk("A_b-9.task.45"), mk("7.task.46")),
+        # names that only match a pattern whose end anchor tolerates a trailing newline: neither an experiment output
+        # nor a task output
+        lambda: (mk("notes.task.2024\n"), mk("a/b/n0tes.task.7\n")),
     ]
     if rows and not isinstance(rows, str):
         r0 = rng.choice(rows)
